@@ -289,19 +289,20 @@ class Typer:
                 dt = {t for t in self.expr(f, d) if t[0] in 'CTF'}
                 if dt:
                     e[p.arg] = dt | {'P'}
-        for _ in range(2):
+        for rnd in range(3):
             for n in f.body_nodes():
                 self._bind_stmt(f, n, e)
-        # isinstance(x, C) anywhere in the function: x may be a C (flow-insensitive narrowing)
-        for n in f.body_nodes():
-            if isinstance(n, ast.Call) and isinstance(n.func, ast.Name) and n.func.id == 'isinstance' \
-                    and len(n.args) == 2 and isinstance(n.args[0], ast.Name) and n.args[0].id in e:
-                cands = n.args[1].elts if isinstance(n.args[1], ast.Tuple) else [n.args[1]]
-                for c in cands:
-                    k = self.repo.resolve_class_expr(f.module, c, f)
-                    if k is not None:
-                        e[n.args[0].id].add('C:' + k.qual)
-                        e[n.args[0].id].discard('?')
+            if rnd == 0:
+                # isinstance(x, C) anywhere in the function: x may be a C (flow-insensitive narrowing)
+                for n in f.body_nodes():
+                    if isinstance(n, ast.Call) and isinstance(n.func, ast.Name) and n.func.id == 'isinstance' \
+                            and len(n.args) == 2 and isinstance(n.args[0], ast.Name) and n.args[0].id in e:
+                        cands = n.args[1].elts if isinstance(n.args[1], ast.Tuple) else [n.args[1]]
+                        for c in cands:
+                            k = self.repo.resolve_class_expr(f.module, c, f)
+                            if k is not None:
+                                e[n.args[0].id].add('C:' + k.qual)
+                                e[n.args[0].id].discard('?')
         return e
 
     def _add(self, e: Dict[str, TSet], name: str, ts: TSet):
